@@ -138,10 +138,16 @@ TOKENS = {
     'C01': ["sp.speriodogram(X1, NFFT=32, detrend=False, scale_by_freq=False, window='hann')",
             "sp.speriodogram(X2, NFFT=32, detrend=False, scale_by_freq=False, window='hann')",
             "sp.speriodogram(X1, NFFT=32, detrend=False, scale_by_freq=False, window='hamming')",
-            "sp.CORRELOGRAMPSD(X1, lag=23, window='rectangular', norm='biased', NFFT=47)"],
+            "sp.CORRELOGRAMPSD(X1, lag=23, window='rectangular', norm='biased', NFFT=47)",
+            # a parametrised window of the length the other tokens use, with two parameter values, and the same name without
+            "sp.CORRELOGRAMPSD(X1, lag=11, window='kaiser', window_params={'beta': 2.0}, norm='biased', NFFT=47)",
+            "sp.CORRELOGRAMPSD(X1, lag=11, window='kaiser', window_params={'beta': 9.0}, norm='biased', NFFT=47)",
+            "sp.speriodogram(X1[:23], NFFT=32, detrend=False, scale_by_freq=False, window='kaiser')"],
     'C09': ["sp.CORRELATION(X1[:6], X2[:4], maxlags=5, norm=None)", "sp.CORRELATION(X1[:6], X2[:1], maxlags=5, norm=None)",
             "sp.CORRELATION(X1, maxlags=5, norm='biased')", "sp.xcorr(X1, X2, maxlags=4, norm='biased')[0]",
-            "np.asarray(sp.corrmtx(X1, 3, 'modified'))"],
+            "np.asarray(sp.corrmtx(X1, 3, 'modified'))",
+            # two records with the same bytes (a complex record and its interleaved real view)
+            "np.asarray(sp.corrmtx(Z1[:8], 3, 'modified'))", "np.asarray(sp.corrmtx(Z1[:8].view(float), 3, 'modified'))"],
     'C10': ["sp.LEVINSON(np.array([3., 1., .5, .2]))", "sp.LEVINSON(np.array([2., 1., .3, .1]))", "sp.LEVINSON(np.array([3., 1., .5, .2]), 2)",
             "sp.LEVINSON(np.array([3., 1. + 1j, .5, .2j]))"],
     'C11': ["lp.rc2poly(np.array([0.5, -0.3]), 1.0)", "lp.rc2poly(np.array([0.5, -0.3]), 2.5)", "lp.rc2ac(np.array([0.5, -0.3]), 2.5)",
@@ -149,14 +155,16 @@ TOKENS = {
     'C12': ["sp.aryule(X1, 3, norm='biased')", "sp.aryule(X2, 3, norm='biased')", "sp.aryule(X1, 2, norm='biased')",
             "np.asarray(sp.pyule(X1, 3, norm='biased', NFFT=16).ar)", "np.asarray(sp.pyule(X1, 3, norm='unbiased', NFFT=16).ar)"],
     'C13': ["sp.arburg(X1, 3)", "sp.arburg(X2, 3)", "sp.arburg(Z1, 2)", "sp.arburg(X1, 5, 'AIC')"],
-    'C14': ["sp.modcovar_marple(Z1, 4)[0]", "sp.modcovar_marple(Z1, 2)[0]", "sp.arcovar_marple(Z1, 3)[0]", "sp.arcovar(X1, 3)", "sp.modcovar(X2, 3)"],
+    'C14': ["sp.modcovar_marple(Z1, 4)[0]", "sp.modcovar_marple(Z1, 2)[0]", "sp.arcovar_marple(Z1, 3)[0]", "sp.arcovar(X1, 3)", "sp.modcovar(X2, 3)",
+            "sp.arcovar(Z1[:12], 3)", "sp.arcovar(Z1[:12].copy().view(float), 3)"],
     'C15': ["sp.arma_estimate(X1, 3, 3, 8)", "sp.arma_estimate(X2, 3, 3, 8)", "sp.ma(X1, 3, 8)", "np.asarray(sp.pma(X1, 3, 8, NFFT=16).ma)"],
     'C16': ["sp.minvar(X1, 4, NFFT=16)[0]", "sp.minvar(X1, 2, NFFT=16)[0]", "sp.minvar(X2, 3, NFFT=16)[0]", "sp.minvar(Z1, 3, NFFT=9)[0]"],
     'C17': ["eigen(Z1, 6, NSIG=2, method='music', NFFT=16)[0]", "eigen(Z2, 6, NSIG=2, method='ev', NFFT=16)[0]", "eigen(Z1, 6, NSIG=3, method='music', NFFT=16)[0]"],
     'C19': ["sp.dpss(24, 2.5, 4)", "sp.pmtm(X1, NW=2.5, k=4, NFFT=32, method='adapt')[1]", "sp.pmtm(X1 * 50, NW=2.5, k=4, NFFT=32, method='adapt')[1]",
             "sp.pmtm(X2, NW=2.5, k=4, NFFT=32, method='eigen')[0]"],
     'C20': ["sp.create_window(16, 'taylor', sll=-30)", "sp.create_window(16, 'taylor', sll=-30.5)", "sp.create_window(16, 'kaiser', beta=5)",
-            "sp.create_window(16, 'kaiser', beta=5.4)", "sp.Window(16, 'gaussian', alpha=2.2).data"],
+            "sp.create_window(16, 'kaiser', beta=5.4)", "sp.Window(16, 'gaussian', alpha=2.2).data",
+            "sp.Window(16, 'kaiser', beta=5).data", "sp.Window(16, 'kaiser', beta=2).data", "sp.Window(16, 'kaiser').data", "sp.Window(16, 'gaussian').enbw"],
 }
 
 
